@@ -43,6 +43,10 @@ CHECKS = {
    "next_name is proved for names of ANY length (an arbitrary word over the alphabet followed by each letter of the live look-up table): it never raises on issued names, only the last position changes or one letter is appended, and the rank (length, rank of the last letter in the live table) strictly increases - hence the chain of issued names is injective for any number of operands. The naming loop is proved per operation class for a generic iteration with a symbolic operand index and current name (operand i gets the successor, name_to_path gains exactly that name -> path + (i,), the current name is written back, nothing else is written); non-operations name nothing and visit their children with index paths; TreeAutoNamer.visit names the root alone iff nothing was named; element_from_path is proved with a cut-point on its while loop; matching_from_names exhaustively on a finite table.",
    "A1-A10; the induction over operands / tree nodes and 'strictly increasing => distinct' are paper steps; precondition: the tree carries no names yet.",
    "contract-based deductive verification: successor strictness and generic-iteration (loop cut) obligations on the real naming code, z3 strings + integer sequences"),
+ "C12": ("proof", "3.C12",
+   "Conversion is proved per node class (with merging off, and with merging on for every class but AND): a comparison becomes a fresh range with the same bound and inclusiveness, a fresh '*' word on the open side, the node's position and layout, add_head around TO only, no comparison left; every other node is copied; input and the shared wildcard word untouched. Merging is proved with a cut-point invariant on the loop of visit_and_operation over an UNBOUNDED number of operands, semantically for one arbitrary field value with uninterpreted bound atoms (hence for every value and every ordering): init, one iteration from an arbitrary state (empty / one-element / longer queue, either side) on a generic converted operand (one-sided same side, opposite side, anything else), exit - the conjunction of the kept operands is equivalent to the conjunction of the consumed ones. _get_node_bound_side is proved against its specification; locality (only direct operands of one AND) follows from the per-class obligations. A bounded sweep on a 5-point ordered domain cross-checks the invariant.",
+   "A1-A10; the composition (L-IND, induction over the operands) is on paper; values are abstract (the code never compares bounds, as documented).",
+   "contract-based deductive verification: per-class conversion contract + loop invariant (cut-point) for the merging loop on the real code, z3 with uninterpreted value atoms; bounded cross-check"),
 }
 PENDING = {
 }
